@@ -24,7 +24,7 @@ EXPLANATION = ("Every public constructor/setter of Rotation_<double> is executed
                "path condition.")
 BOUNDS = ("all inputs of an instance simultaneously free (free set ALL: every angle, vector and quaternion component is a solver variable) except: gimbal-lock instances (middle angle pinned at "
           "exactly +-pi/2 resp. 0, other two free) and the quaternion-product instance (one quaternion free, the other pinned at an exactly unit rational point, both ways); paths per instance explored "
-          "by flipping decisions up to the budget (quick 2-6 / thorough 6-40 paths per instance); the quaternion/angle-axis round trips of a general rotation run at 7 chosen base points that execute the four Spurrier "
+          "by flipping decisions up to the budget (quick 2-6 / thorough 6-16 paths per instance); the quaternion/angle-axis round trips of a general rotation run at 7 chosen base points that execute the four Spurrier "
           "branches with both canonicalisation signs, all three angles free on each; double precision")
 NOT_COVERED = ("float instantiations; angles -> R -> angles (uniqueness inside the principal domain; only R(convert(R)) = R is proved); setRotationFromApproximateMat33 on a non-orthogonal matrix "
                "(only exact rotations are fed: then it must return the same rotation); the approximately singular neighbourhood |cos| <= 4 eps of the Euler conversions (only the exactly singular "
@@ -46,7 +46,7 @@ def adjust_seeds(inst, seeds, angle_pins, rng, g):
 def instances(tier, seed):
     out = []
     q = tier == "quick"
-    np_ = 6 if q else 40
+    np_ = 6 if q else 16
     fl = dict(flip_timeout_ms=1500, flips_per_path=8) if q else dict(flip_timeout_ms=10000, flips_per_path=16)
     for a in AX:
         out.append(dict(name="one:%s" % a, args=["one", a], paths=4 if q else 16, base_points=1, **fl))
@@ -133,7 +133,7 @@ class Ctx:
         self.ntwins = ntwins
 
     def E(self, name, pairs, hyps=()):
-        ob = eqs_elim(self.enc, name, pairs, hyps=hyps, roots=self.rs, clear=True, twin=True)
+        ob = eqs_elim(self.enc, name, pairs, hyps=hyps, roots=self.rs, clear=True, twin=True, witness=True)
         if ob.twin is not None:
             if self.ntwins > 0:
                 self.ntwins -= 1
